@@ -21,6 +21,7 @@ Proof.
   - exact (DInv_ack ef d k d' I H).
   - exact (DInv_purge ef d epochs d' I H).
   - exact (DInv_remove_zap ef d sid d' I H).
+  - exact (DInv_merge_abort ef d newid d' I H).
   - exact (DInv_copy_start ef d d' I H).
   - exact (DInv_copy_end ef d sids d' I H).
   - exact (DInv_crash ef d d' I H).
@@ -129,15 +130,17 @@ Proof.
   exact (recover_prefix _ d1 d2 I1 Hr id).
 Qed.
 
-(* recovery never fails once something was committed, and it uses exactly the newest record *)
+(* recovery never fails once something was committed, and it uses exactly the newest record (its
+   segments loaded in ascending id order) *)
 Lemma recover_enabled : forall ef d,
   DInv ef d -> d_up d = false -> d_bolt d <> [] ->
-  exists n rr, newest (d_bolt d) = Some n /\ rec_root (d_segdocs d) (br_segs n) = Some rr
+  exists n rr, newest (d_bolt d) = Some n /\ rec_root (d_segdocs d) (sort_segs (br_segs n)) = Some rr
     /\ dstep d DRecover = Some (recovered d n rr (covered d)).
 Proof.
   intros ef d I Hup Hne. destruct (newest_Some _ Hne) as [n En].
   assert (Hn := newest_In _ _ En).
-  destruct (di_bolt ef d I n Hn) as [_ [_ [_ [rr [k [Hrr [Hk _]]]]]]].
+  destruct (di_bolt ef d I n Hn) as [_ [_ [_ [rr0 [k [Hrr0 [Hk [_ Hnd0]]]]]]]].
+  destruct (rec_root_sorted _ _ rr0 Hrr0 Hnd0) as [rr [Hrr _]].
   exists n, rr. split; [exact En|]. split; [exact Hrr|].
   cbn [dstep]. rewrite Hup, En, Hrr.
   assert (Hf : forallb (fun id => mem_id id (d_files d)) (named_by n) = true).
@@ -148,7 +151,8 @@ Qed.
 Theorem recover_succeeds : forall evs d,
   drun dinit evs = Some d -> d_bolt d <> [] ->
   forall d1, dstep d DCrash = Some d1 ->
-  exists n rr d2, newest (d_bolt d) = Some n /\ rec_root (d_segdocs d) (br_segs n) = Some rr
+  exists n rr d2, newest (d_bolt d) = Some n
+    /\ rec_root (d_segdocs d) (sort_segs (br_segs n)) = Some rr
     /\ dstep d1 DRecover = Some d2
     /\ root (d_core d2) = rr /\ internal (d_core d2) = br_int n /\ epoch (d_core d2) = br_epoch n
     /\ d_bolt d2 = d_bolt d.
@@ -161,6 +165,47 @@ Proof.
   exists n, rr, (recovered d1 n rr (covered d1)).
   rewrite <- Hb, <- Hsd. split; [exact En|]. split; [exact Hrr|]. split; [exact Hs|].
   repeat split; reflexivity.
+Qed.
+
+(* ---------- rollback (shape; the C13 theorems are in ProofsDisk6.v) ---------- *)
+
+Lemma rollback_shape : forall d e d1, dstep d (DRollback e) = Some d1 ->
+  d_up d = false /\ (exists b, In b (d_bolt d) /\ br_epoch b = e)
+  /\ d_bolt d1 = filter (fun b => br_epoch b <=? e) (d_bolt d)
+  /\ d_nb d1 = d_nb d /\ d_files d1 = d_files d /\ d_up d1 = false
+  /\ d_acked d1 = filter (fun a => Nat.leb a (match assocZ e (d_nb d) with Some k => k | None => 0%nat end))
+                          (d_acked d).
+Proof.
+  intros d e d1 H. cbn [dstep] in H. destruct (d_up d); [discriminate|].
+  match type of H with (if ?c then _ else _) = _ => destruct c eqn:Hc end; [|discriminate].
+  injection H as H. subst d1. split; [reflexivity|]. split.
+  - apply existsb_exists in Hc. destruct Hc as [b [Hb He]]. exists b. split; [exact Hb|].
+    apply Z.eqb_eq. exact He.
+  - repeat split; reflexivity.
+Qed.
+
+Lemma rollback_covered : forall ef d e d1 k,
+  DInv ef d -> dstep d (DRollback e) = Some d1 -> assocZ e (d_nb d) = Some k -> covered d1 = k.
+Proof.
+  intros ef d e d1 k I H Hk.
+  destruct (rollback_shape d e d1 H) as [_ [[b [Hb He]] [Hbolt [Hnb _]]]].
+  assert (Hb1 : In b (d_bolt d1)).
+  { rewrite Hbolt. apply filter_In. split; [exact Hb|]. apply Z.leb_le. lia. }
+  destruct (newest_Some (d_bolt d1)) as [n En]; [intros Hnil; rewrite Hnil in Hb1; destruct Hb1|].
+  assert (Hs1 : bsorted (d_bolt d1)) by (rewrite Hbolt; apply bsorted_filter; exact (di_sorted ef d I)).
+  assert (Hge := bsorted_max _ n Hs1 En b Hb1).
+  assert (Hn := newest_In _ _ En). rewrite Hbolt in Hn. apply filter_In in Hn.
+  destruct Hn as [_ Hle]. apply Z.leb_le in Hle.
+  assert (Hen : br_epoch n = e) by lia.
+  unfold covered. rewrite En, Hnb, Hen, Hk. reflexivity.
+Qed.
+
+(* the epoch of a rollback point has its number of batches recorded *)
+Lemma rollback_point_nb : forall ef d e d1,
+  DInv ef d -> dstep d (DRollback e) = Some d1 -> exists k, assocZ e (d_nb d) = Some k.
+Proof.
+  intros ef d e d1 I H. destruct (rollback_shape d e d1 H) as [_ [[b [Hb He]] _]].
+  destruct (di_bolt ef d I b Hb) as [_ [_ [_ [rr [k [_ [Hk _]]]]]]]. exists k. rewrite <- He. exact Hk.
 Qed.
 
 (* ---------- acknowledged batches ---------- *)
@@ -185,9 +230,9 @@ Proof.
 Qed.
 
 Lemma acks_step : forall ef d ev d',
-  DInv ef d -> acks_le d -> is_rollback ev = false -> dstep d ev = Some d' -> acks_le d'.
+  DInv ef d -> acks_le d -> dstep d ev = Some d' -> acks_le d'.
 Proof.
-  intros ef d ev d' I A Hnr H. destruct ev; cbn [is_rollback] in Hnr; try discriminate.
+  intros ef d ev d' I A H. destruct ev.
   - (* DCore *)
     apply (acks_same d d' A).
     + cbn [dstep] in H. destruct (negb (d_up d)); [discriminate|].
@@ -245,47 +290,49 @@ Proof.
     injection H as H. subst d'. apply (acks_same d _ A); reflexivity.
   - need_up H Hup. injection H as H. subst d'. apply (acks_same d _ A); reflexivity.
   - need_up H Hup. injection H as H. subst d'. apply (acks_same d _ A); reflexivity.
+  - need_up H Hup. injection H as H. subst d'. apply (acks_same d _ A); reflexivity.
   - destruct (crash_shape d d' H) as [_ [_ [_ [_ [_ [Ha Hc]]]]]]. exact (acks_same d d' A Ha Hc).
   - (* DRecover *)
     destruct (recover_shape d d' H) as [n [r [_ [En [_ [_ Hd]]]]]]. subst d'.
     apply (acks_same d _ A); [reflexivity|].
     unfold covered at 1. unfold recovered. cbn [d_bolt d_nb]. rewrite En, assocZ_cons_eq. reflexivity.
+  - (* DRollback: acknowledgements of discarded batches are discarded with them *)
+    destruct (rollback_point_nb ef d e d' I H) as [k Hk].
+    destruct (rollback_shape d e d' H) as [_ [_ [_ [_ [_ [_ Ha]]]]]]. rewrite Hk in Ha.
+    intros k0 Hk0. rewrite (rollback_covered ef d e d' k I H Hk). rewrite Ha in Hk0. apply filter_In in Hk0. apply Nat.leb_le. exact (proj2 Hk0).
 Qed.
 
 Lemma acks_run : forall evs ef d d',
-  DInv ef d -> acks_le d -> no_rollback evs = true ->
-  drun d evs = Some d' -> acks_le d'.
+  DInv ef d -> acks_le d -> drun d evs = Some d' -> acks_le d'.
 Proof.
-  induction evs as [|ev evs IH]; intros ef d d' I A Hnr Hrun;
-    cbn [drun no_rollback forallb] in *.
+  induction evs as [|ev evs IH]; intros ef d d' I A Hrun; cbn [drun] in *.
   - injection Hrun as Hrun. subst d'. exact A.
-  - apply andb_true_iff in Hnr. destruct Hnr as [Hnr1 Hnr]. apply negb_true_iff in Hnr1.
-    destruct (dstep d ev) as [d1|] eqn:Hs; [|discriminate].
-    exact (IH _ d1 d' (DInv_step ef d ev d1 I Hs) (acks_step ef d ev d1 I A Hnr1 Hs) Hnr Hrun).
+  - destruct (dstep d ev) as [d1|] eqn:Hs; [|discriminate].
+    exact (IH _ d1 d' (DInv_step ef d ev d1 I Hs) (acks_step ef d ev d1 I A Hs) Hrun).
 Qed.
 
 (* acked_survive: in every reachable state (up or down, so in particular right after a crash
    and right after the following recovery) every acknowledged batch is covered by the newest
-   committed record.  A rollback deliberately discards acknowledged batches, hence the
-   hypothesis. *)
+   committed record.  (A rollback deliberately discards the batches after the rollback point
+   together with their acknowledgements.) *)
 Theorem acked_survive : forall evs d,
-  no_rollback evs = true -> drun dinit evs = Some d ->
+  drun dinit evs = Some d ->
   forall k, In k (d_acked d) -> (k <= covered d)%nat.
 Proof.
-  intros evs d Hnr Hrun.
+  intros evs d Hrun.
   apply (acks_run evs [] dinit d DInv_init); try assumption. intros k [].
 Qed.
 
 (* ... and therefore in the recovered contents: the recovered root is the replay of a prefix
    that includes every acknowledged batch *)
 Theorem acked_in_recovered_prefix : forall evs d d1 d2,
-  no_rollback evs = true -> drun dinit evs = Some d ->
+  drun dinit evs = Some d ->
   dstep d DCrash = Some d1 -> dstep d1 DRecover = Some d2 ->
   exists n, (forall k, In k (d_acked d) -> (k <= n)%nat) /\ (n <= length (eff evs))%nat
     /\ forall id, root_lookup (root (d_core d2)) id = replay (firstn n (eff evs)) id.
 Proof.
-  intros evs d d1 d2 Hnr Hrun Hc Hr. exists (covered d).
-  split; [exact (acked_survive evs d Hnr Hrun)|].
+  intros evs d d1 d2 Hrun Hc Hr. exists (covered d).
+  split; [exact (acked_survive evs d Hrun)|].
   split; [|exact (crash_recovers_prefix evs d Hrun d1 d2 Hc Hr)].
   assert (I := reachable_DInv evs d Hrun). unfold covered.
   destruct (newest (d_bolt d)) as [n|] eqn:En; [|lia].
